@@ -49,16 +49,18 @@ def rotatePsiOp (j : Json) : R Json := do
   let us ← parseUs (α := α) (← fld j "us") n
   let psi ← (← jArr (← fld j "psi")).mapM (parseC (α := α))
   if psi.size != 2 ^ n then throw "psi: wrong length"
-  let res := rotatePsi n us (fun k => psi[k]!)
-  return .arr ((Array.range (2 ^ n)).map (fun k => outC (res k)))
+  -- executed: the LOOP form of `_kron_mult` (C04_rotate_psi_loop), cross-checked against the stage form
+  let res := rotatePsiL n us psi.toList
+  return .arr ((Array.range (2 ^ n)).map (fun k => outC (res.getD k (0, 0))))
 
 def rotateRhoOp (j : Json) : R Json := do
   let n ← jNat (← fld j "n")
   let us ← parseUs (α := α) (← fld j "us") n
   let rho ← (← jArr (← fld j "rho")).mapM (fun r => do (← jArr r).mapM (parseC (α := α)))
   if rho.size != 2 ^ n || !rho.all (·.size == 2 ^ n) then throw "rho: wrong shape"
-  let res := rotateRho n us (fun i k => (rho[i]!)[k]!)
-  return .arr ((Array.range (2 ^ n)).map (fun i => .arr ((Array.range (2 ^ n)).map (fun k => outC (res i k)))))
+  let rows : List (Row α) := rho.toList.map (fun r => fun k => r[k]!)
+  let res := rotateRhoL n us rows
+  return .arr ((Array.range (2 ^ n)).map (fun i => .arr ((Array.range (2 ^ n)).map (fun k => outC ((res.getD i (fun _ => (0, 0))) k)))))
 
 def innerProdOp (j : Json) : R Json := do
   let n ← jNat (← fld j "n")
